@@ -361,6 +361,54 @@ Proof.
            (Forall_trivial tus) (Forall_trivial accs) H).
 Qed.
 
+(* ---- "drawn uniformly among trajectory points whose joint log-density exceeds the slice level" ----
+   candw j z v l is the probability that l is the candidate of build_tree j z v, obtained by replacing each
+   merge decision `u < n''/max(n'+n'',1)` (u uniform on [0,1), independent: the modelling assumption) by its
+   probability; candsel is the same recursion driven by the actual uniforms and is the model's candidate. *)
+From MiniMcmc Require Import Proofs.NUTSUniform.
+From Coq Require Import Reals.
+
+Section C03_uniform_selection.
+  Context {P F A U : Type}.
+  Variable leap : bool -> P -> P.
+  Variable joint : P -> F.
+  Variable noturn : P -> P -> bool.
+  Variable flt : F -> F -> bool.
+  Variable sub1000 : F -> F.
+  Variable alpha1 : P -> A.
+  Variable aadd : A -> A -> A.
+  Variable take2 : U -> nat -> nat -> bool.
+  Variable logu : F.
+  Variable P_eq_dec : forall a b : P, {a = b} + {a <> b}.
+
+  (* in a sub-tree that did not stop, every slice-admissible visited leaf is the candidate with probability 1/n',
+     every other visited leaf with probability 0 *)
+  Theorem C03_uniform : forall j z v us us' t,
+    build_tree leap joint noturn flt sub1000 alpha1 aadd take2 logu j z v us = Some (t, us') ->
+    NoDup (visited leap joint noturn flt sub1000 alpha1 aadd take2 logu j z v us) ->
+    ts t = true -> 0 < tn t ->
+    forall l, In l (visited leap joint noturn flt sub1000 alpha1 aadd take2 logu j z v us) ->
+      (admissible joint flt logu l = true ->
+         candw leap joint noturn flt sub1000 logu P_eq_dec j z v l = (1 / INR (tn t))%R) /\
+      (admissible joint flt logu l = false ->
+         candw leap joint noturn flt sub1000 logu P_eq_dec j z v l = 0%R).
+  Proof. exact (candw_uniform leap joint noturn flt sub1000 alpha1 aadd take2 logu P_eq_dec). Qed.
+
+  (* the weights form a probability distribution on the visited leaves *)
+  Theorem C03_uniform_total : forall j z v us us' t,
+    build_tree leap joint noturn flt sub1000 alpha1 aadd take2 logu j z v us = Some (t, us') ->
+    NoDup (visited leap joint noturn flt sub1000 alpha1 aadd take2 logu j z v us) ->
+    rsum (candw leap joint noturn flt sub1000 logu P_eq_dec j z v)
+         (visited leap joint noturn flt sub1000 alpha1 aadd take2 logu j z v us) = 1%R.
+  Proof. exact (candw_total leap joint noturn flt sub1000 alpha1 aadd take2 logu P_eq_dec). Qed.
+
+  (* the executable model's candidate is the selection recursion driven by the actual uniforms *)
+  Theorem C03_uniform_matches_model : forall j z v us us' t,
+    build_tree leap joint noturn flt sub1000 alpha1 aadd take2 logu j z v us = Some (t, us') ->
+    candsel leap joint noturn flt sub1000 take2 logu j z v us = Some (cand t, us').
+  Proof. exact (candw_matches_model leap joint noturn flt sub1000 alpha1 aadd take2 logu). Qed.
+End C03_uniform_selection.
+
 Print Assumptions C03_leaves.
 Print Assumptions C03_counts.
 Print Assumptions C03_not_stopped_no_uturn.
@@ -378,3 +426,6 @@ Print Assumptions C03_candidates_on_trajectory.
 Print Assumptions C03_candidate_admissible.
 Print Assumptions C03_adopted.
 Print Assumptions C03_next_state.
+Print Assumptions C03_uniform.
+Print Assumptions C03_uniform_total.
+Print Assumptions C03_uniform_matches_model.
